@@ -20,9 +20,9 @@ open LyModel LyModel.Tree
 /-- Candidate repairs of known findings (`fixes/Fnn.diff`).  All `false` = the pinned tree; the check sets a switch when
 `known_findings.json` lists the finding as `fixed`, so that the model follows the repaired code. -/
 structure Fixes where
-  f50 : Bool := false     -- apply: a user-ordered leaf-list move also applies the default-flag change
-  f56 : Bool := false     -- apply: descendants without an operation below a moved instance are skipped
-  f58 : Bool := false     -- diff: `*diff` is re-computed after an existing node was moved behind its fellow instances
+  f120 : Bool := false     -- apply: a user-ordered leaf-list move also applies the default-flag change
+  f126 : Bool := false     -- apply: descendants without an operation below a moved instance are skipped
+  f128 : Bool := false     -- diff: `*diff` is re-computed after an existing node was moved behind its fellow instances
   deriving Repr, Inhabited
 
 inductive Op where
@@ -366,7 +366,7 @@ def St.emit (st : St) (out' : List DNode) (side : Bool) (fd : Nat) : St :=
 
 /-- `lyd_diff_add` at this level.  `*diff` is re-computed (first sibling) whenever a node is inserted at the top level, but
 NOT when an existing node is moved behind its fellow instances: if `*diff` pointed to that node it keeps pointing to it, and
-`lyd_diff_siblings` hands out a pointer into the middle of the sibling list (finding F58). -/
+`lyd_diff_siblings` hands out a pointer into the middle of the sibling list (finding F128). -/
 def St.add (S : Schema) (st : St) (node : DNode) (a : Attrs) (side : Bool) : St :=
   let (out', ev) := addAt S st.out node a
   let ptr' := match ev with
@@ -461,7 +461,7 @@ def diffSiblings (S : Schema) (defaults : Bool) : (fuel : Nat) → (top : Bool) 
 /-- `lyd_diff_siblings(first, second, options, &diff)`: all diff siblings, and the index of the one `*diff` points to -/
 def diffFull (S : Schema) (defaults : Bool) (first second : List DNode) (fx : Fixes := {}) : List DNode × Nat :=
   let st := diffSiblings S defaults (Nat.max (heightL first) (heightL second) + 1) true first second
-  (st.out, if fx.f58 then 0 else st.ptr)
+  (st.out, if fx.f128 then 0 else st.ptr)
 
 /-- the diff tree (what `lyd_print_all` / a walk from the first sibling sees) -/
 def diff (S : Schema) (defaults : Bool) (first second : List DNode) : List DNode :=
